@@ -37,7 +37,7 @@ func (g *goGen) scalar(t *rapid.T) *gm.TD {
 }
 
 func (g *goGen) named(t *rapid.T) *gm.TD {
-	return &gm.TD{K: gm.KNamed, Name: rapid.SampledFrom([]string{"MethStr", "PlainStr", "PlainInt", "MethInt", "TextT", "EmbA", "MethBytes"}).Draw(t, "named")}
+	return &gm.TD{K: gm.KNamed, Name: rapid.SampledFrom([]string{"MethStr", "PlainStr", "PlainInt", "MethInt", "TextT", "EmbA", "MethBytes", "EmbDeeper"}).Draw(t, "named")}
 }
 
 // pos: root | field | elem | mapval | ptr
@@ -94,7 +94,7 @@ func (g *goGen) structTD(t *rapid.T, depth int) *gm.TD {
 	n := rapid.IntRange(0, 5).Draw(t, "nfields")
 	td := &gm.TD{K: gm.KStruct}
 	used := map[string]bool{}
-	emb := rapid.IntRange(0, 9).Draw(t, "embed")
+	emb := rapid.IntRange(0, 11).Draw(t, "embed")
 	addEmb := func(name string, ptr bool) {
 		et := &gm.TD{K: gm.KNamed, Name: name}
 		if ptr {
@@ -112,6 +112,10 @@ func (g *goGen) structTD(t *rapid.T, depth int) *gm.TD {
 		addEmb("EmbB", rapid.Bool().Draw(t, "embBptr"))
 	case 3:
 		addEmb("EmbDeep", false)
+	case 4:
+		addEmb("EmbDeeper", false) // EmbA's fields three levels down
+	case 5:
+		addEmb("EmbDeeper", true)
 	}
 	for i := 0; i < n; i++ {
 		f := gm.FD{Name: fmt.Sprintf("F%d", i)}
@@ -129,7 +133,7 @@ func (g *goGen) structTD(t *rapid.T, depth int) *gm.TD {
 				f.Tag = "--"
 			}
 		}
-		if used[f.KeyName()] && !(f.KeyName() == "x" && emb <= 3) {
+		if used[f.KeyName()] && !(f.KeyName() == "x" && emb <= 5) {
 			f.Tag, f.Key = "", "" // fall back to the unique field name
 		}
 		if f.KeyName() == "x" && used["x"] {
